@@ -22,6 +22,7 @@ type c06Case struct {
 	Fails     int           `json:"fails"`      // failed transmissions (each followed by a retry tick) before the successful one
 	LifeMs    uint64        `json:"life_ms"`    // 0 = one hour
 	OtherPeer bool          `json:"other_peer"` // a second, non-destination peer is connected as well (epidemic copies)
+	Run       []uint64      `json:"run,omitempty"` // block flags of additional unknown blocks placed next to each other in front of the bundle's other blocks
 }
 
 func dtnNow() uint64 { return uint64(bpv7.DtnTimeNow()) }
@@ -52,6 +53,26 @@ func c06Body(c *vk.Ctx, cs c06Case) {
 		}
 		hb := vk.BlockSpec{Type: vk.BTHop, Num: n, Flags: vk.BFReplicate, CRC: 1, Limit: uint64(cs.HopLimit), Count: uint64(cs.HopCount)}
 		blocks = append([]vk.BlockSpec{hb}, blocks...)
+	}
+	if len(cs.Run) > 0 {
+		used := map[uint64]bool{}
+		for _, b := range blocks {
+			used[b.Num] = true
+		}
+		var run []vk.BlockSpec
+		n := uint64(2)
+		for i, fl := range cs.Run {
+			for used[n] {
+				n++
+			}
+			used[n] = true
+			if spec.Flags&vk.FAdmin != 0 || spec.Src.Kind == "none" {
+				fl &^= vk.BFReport
+			}
+			run = append(run, vk.BlockSpec{Type: uint64(201 + i), Num: n, Flags: fl, CRC: uint64(i % 3), Data: []byte{byte(i), 0xc0, 0x6e}})
+		}
+		blocks = append(run, blocks...)
+		c.Classf("run of %d unknown blocks", len(cs.Run))
 	}
 	spec.Blocks = blocks
 	rawIn := spec.Encode(dtnNow())
@@ -356,6 +377,9 @@ func genC06(t *rapid.T) c06Case {
 	cs.SleepMs = rapid.SampledFrom([]int{0, 0, 0, 0, 0, 0, 30, 30, 300, 1500}).Draw(t, "sleep")
 	cs.Fails = rapid.SampledFrom([]int{0, 0, 1, 2}).Draw(t, "fails")
 	cs.OtherPeer = rapid.IntRange(0, 3).Draw(t, "other") == 0
+	if rapid.IntRange(0, 3).Draw(t, "run") == 0 {
+		cs.Run = rapid.SliceOfN(rapid.SampledFrom([]uint64{vk.BFRemove, vk.BFRemove, vk.BFRemove | vk.BFReplicate, 0, vk.BFReplicate, vk.BFRemove | vk.BFReport}), 2, 4).Draw(t, "runflags")
+	}
 	if rapid.IntRange(0, 7).Draw(t, "shortlife") == 0 {
 		cs.LifeMs = rapid.SampledFrom([]uint64{150, 400, 5000}).Draw(t, "life")
 		if cs.SleepMs < 300 {
@@ -367,6 +391,6 @@ func genC06(t *rapid.T) c06Case {
 
 func TestVerifC06Forwarding(t *testing.T) {
 	u := vk.Unit{Property: "C06", Name: "c06.forwarding", Quick: 480, Thorough: 6000,
-		Rule: "generated bundles (all endpoint forms, flag combinations, 0..5 extension blocks incl. previous-node, age and unknown types with every block-flag combination, CRC mix, zero / non-zero creation time) x hop (count, limit) incl. (0,0),(k,k),(254,255),(255,255) x residence 0/30/300/1500 ms (real sleeps) x lifetime 1 h or a few hundred ms x 0..2 failed transmissions before the successful one x routing algorithm; the bytes serialised inside the scripted convergence layer are parsed with the independent reader and diffed block by block against the accepted encoding (primary block and payload byte-identical, hop count +1 on every attempt, previous node = this node, age growth inside the bracket of harness clock readings, unsupported remove-flagged blocks gone, nothing invented); refusal cases: never transmitted and dropped from the store; non-trivial = bundle with a hop-count / age / previous-node block that was transmitted, or a refusal case; distinct by case hash"}
+		Rule: "generated bundles (all endpoint forms, flag combinations, 0..5 extension blocks incl. previous-node, age and unknown types with every block-flag combination, in a quarter of the cases 2..4 more unknown blocks next to each other (mostly flagged for removal), CRC mix, zero / non-zero creation time) x hop (count, limit) incl. (0,0),(k,k),(254,255),(255,255) x residence 0/30/300/1500 ms (real sleeps) x lifetime 1 h or a few hundred ms x 0..2 failed transmissions before the successful one x routing algorithm; the bytes serialised inside the scripted convergence layer are parsed with the independent reader and diffed block by block against the accepted encoding (primary block and payload byte-identical, hop count +1 on every attempt, previous node = this node, age growth inside the bracket of harness clock readings, unsupported remove-flagged blocks gone, nothing invented); refusal cases: never transmitted and dropped from the store; non-trivial = bundle with a hop-count / age / previous-node block that was transmitted, or a refusal case; distinct by case hash"}
 	vk.Check(t, u, genC06, c06Body)
 }
